@@ -89,15 +89,19 @@ def notify(sig, async_):
             st.accessors["TempUnits"] = tu
         calls = []
 
-        def o1(sender, ov, nv):
-            calls.append(("o1", sender, ov, nv, st.status_block))
+        class Client:
+            """observers are bound methods, as in the library's own `x.watch(self._on_change)`"""
 
-        def o2(sender, ov, nv):
-            calls.append(("o2", sender, ov, nv, st.status_block))
+            def __init__(self, name):
+                self.name = name
 
-        acc.watch(o1)
-        acc.watch(o2)
-        acc.watch(o1)   # registered twice: must still be called once
+            def on_change(self, sender, ov, nv):
+                calls.append((self.name, sender, ov, nv, st.status_block))
+
+        c1, c2 = Client("o1"), Client("o2")
+        acc.watch(c1.on_change)
+        acc.watch(c2.on_change)
+        acc.watch(c1.on_change)   # registered twice (an equal, not identical, bound method): called once
         st.replace_status_block_segment(offset, patch)
         new = st.status_block
         rec = refmodel.record_of(a0)
@@ -198,7 +202,22 @@ def observable(maxops):
         a = GeckoByteStructAccessor(st, "A", 0, None)
         st.accessors = {"A": a}
         calls = []
-        obs = [lambda *x: calls.append(0), lambda *x: calls.append(1)]
+
+        class Client:
+            def __init__(self, i):
+                self.i = i
+
+            def cb(self, *x):
+                calls.append(self.i)
+
+        clients = [Client(0), Client(1)]
+
+        class _Obs:
+            """a fresh bound-method object on every access, like `self._on_change` in the library"""
+
+            def __getitem__(self, i):
+                return clients[i].cb
+        obs = _Obs()
         model = []
         nops = sx.choice("nops", maxops + 1)
         for k in range(nops):
